@@ -325,6 +325,15 @@ func decodeBody(r *hx.RawResp) (string, bool) {
 
 // Exchange sends the scripted request and then a plain one on the same connection.
 func (f *Fixture) Exchange(id, path, script string, gzipOK bool, hdr ...string) ClientView {
+	return f.exchange(id, path, script, gzipOK, false, hdr...)
+}
+
+// ExchangeHalfClosed: the client shuts down its sending side right after the request and waits.
+func (f *Fixture) ExchangeHalfClosed(id, path, script string, gzipOK bool, hdr ...string) ClientView {
+	return f.exchange(id, path, script, gzipOK, true, hdr...)
+}
+
+func (f *Fixture) exchange(id, path, script string, gzipOK, halfClose bool, hdr ...string) ClientView {
 	var cv ClientView
 	rc, err := hx.DialRaw(f.Addr())
 	if err != nil {
@@ -332,6 +341,7 @@ func (f *Fixture) Exchange(id, path, script string, gzipOK bool, hdr ...string) 
 		return cv
 	}
 	defer rc.Close()
+	rc.HalfClose = halfClose
 	h := []string{"X-Case: " + id}
 	if script != "" {
 		h = append(h, "X-Probe: "+script)
@@ -348,7 +358,7 @@ func (f *Fixture) Exchange(id, path, script string, gzipOK bool, hdr ...string) 
 	cv.Status, cv.Header, cv.Raw, cv.Err = r.Status, r.Header, r.Body, r.Err
 	cv.Body, cv.Gzipped = decodeBody(r)
 	// the connection must still be in step: exactly one response was produced for the request
-	if r.Header.Get("Connection") == "close" || r.Err != "" {
+	if r.Header.Get("Connection") == "close" || r.Err != "" || halfClose {
 		rc2, err := hx.DialRaw(f.Addr())
 		if err != nil {
 			cv.AfterErr = "dial after: " + err.Error()
